@@ -245,15 +245,32 @@ fn language_job(ctx: &Ctx, job: usize, iters: u64) -> Stats {
         list.dedup();
         st.evals += 1;
         st.bump("language_forms");
-        let case = json!({"kind": "language", "text": text});
         let Ok(ast) = refsyn::parse_text(&text) else {
             st.bump("harness_generated_unparsable(bug in generator, not judged)");
             continue;
         };
         let Ok((rnames, want)) = refsem::eval_formula(&ast) else { continue };
+        // a quarter of the texts under an ordering handed in through the API: some of the names,
+        // sparse ids, the vector in any order (what a quantifier eliminates is decided by NAME)
+        let api_ordering: Option<Vec<rsbdd::NamedSymbol>> = if rng.chance(1, 4) {
+            let mut v: Vec<rsbdd::NamedSymbol> = Vec::new();
+            let mut id = rng.usize(2);
+            for nm in rnames.iter() {
+                if rng.chance(2, 3) {
+                    v.push(rsbdd::NamedSymbol { name: Rc::new(nm.clone()), id });
+                    id += 1 + rng.usize(3);
+                }
+            }
+            rng.shuffle(&mut v);
+            st.bump("language_forms_under_an_api_ordering");
+            Some(v)
+        } else {
+            None
+        };
+        let case = json!({"kind": "language", "text": text, "ordering": api_ordering.as_ref().map(|v| v.iter().map(|s| json!([s.name.as_ref(), s.id])).collect::<Vec<_>>())});
         util::budget(20_000_000, 1000);
         let r = guarded(|| {
-            let pf = ParsedFormula::new(&mut BufReader::new(text.as_bytes()), None)?;
+            let pf = ParsedFormula::new(&mut BufReader::new(text.as_bytes()), api_ordering.clone())?;
             Ok::<_, std::io::Error>(pf.eval())
         });
         match r {
@@ -334,7 +351,8 @@ pub fn replay(_ctx: &Ctx, _monitor: &str, case: &Value, st: &mut Stats) {
         if let Ok(ast) = refsyn::parse_text(&text) {
             if let Ok((rnames, want)) = refsem::eval_formula(&ast) {
                 util::budget(20_000_000, 1000);
-                let r = guarded(|| ParsedFormula::new(&mut BufReader::new(text.as_bytes()), None).map(|pf| pf.eval()));
+                let ord: Option<Vec<rsbdd::NamedSymbol>> = case.get("ordering").and_then(|o| o.as_array()).map(|a| a.iter().filter_map(|e| Some(rsbdd::NamedSymbol { name: Rc::new(e.get(0)?.as_str()?.to_string()), id: e.get(1)?.as_u64()? as usize })).collect());
+                let r = guarded(|| ParsedFormula::new(&mut BufReader::new(text.as_bytes()), ord.clone()).map(|pf| pf.eval()));
                 st.evals += 1;
                 match r {
                     Ok(Ok(d)) => {
